@@ -351,7 +351,7 @@ func lifeRun(nontrivial func(lr *LifeRun, ix *lifeIndex) bool) func(c fw.Case) f
 func init() {
 	fw.Register(&fw.Property{
 		ID: "C02", Level: "exploration",
-		Rule: "grid policy x max_restarts x backoff x random exit-code sequences (reference decision table gives the exact launch count), plus stop/shutdown requests placed while running attempt k, exactly at exit (held after Wait), during the back-off, after the back-off timer fired (held), just before the launch decision, and at random instants; unscaled canaries keep the real 1 s back-off monitored; non-trivial = at least one relaunch or one stop of a restarting process; distinct = event-order signature",
+		Rule:        "grid policy x max_restarts x backoff x random exit-code sequences (reference decision table gives the exact launch count), plus stop/shutdown requests placed while running attempt k, exactly at exit (held after Wait), during the back-off, after the back-off timer fired (held), just before the launch decision, and at random instants; unscaled canaries keep the real 1 s back-off monitored; non-trivial = at least one relaunch or one stop of a restarting process; distinct = event-order signature",
 		Assumptions: []string{"back-off scaled to 20 ms per second through the verif hook except in canary cases", "back-off checked as a lower bound on the monotonic clock"},
 		Gen: func(seed int64, tier string) []fw.Case {
 			var cs []fw.Case
@@ -383,7 +383,7 @@ func init() {
 
 	fw.Register(&fw.Property{
 		ID: "C03", Level: "fault_enumeration",
-		Rule: "enumerated injection points: 14 life-cycle points of the target process (start-up loop, spawned, released, run.enter, after the stop check, before launch, after Wait, after back-off, run.end, before unregistration, inside a concurrent StopProcess x2, running, pending) x 4 triggers (API, exit_on_failure, exit_on_end, exit_on_skipped) x 4 shapes x ordered on/off = 448 combinations, the target held at the yield point while the shutdown is issued; plus random graphs with a shutdown at a random instant; non-trivial = the hold was actually reached (or a shutdown returned in random cases); distinct = event-order signature",
+		Rule:        "enumerated injection points: 14 life-cycle points of the target process (start-up loop, spawned, released, run.enter, after the stop check, before launch, after Wait, after back-off, run.end, before unregistration, inside a concurrent StopProcess x2, running, pending) x 4 triggers (API, exit_on_failure, exit_on_end, exit_on_skipped) x 4 shapes x ordered on/off = 448 combinations, the target held at the yield point while the shutdown is issued; plus random graphs with a shutdown at a random instant; non-trivial = the hold was actually reached (or a shutdown returned in random cases); distinct = event-order signature",
 		Assumptions: []string{"holds are bounded (250 ms) yield-point delays, never unbounded", "hang = 4 s of silence with nothing alive"},
 		Gen: func(seed int64, tier string) []fw.Case {
 			var cs []fw.Case
@@ -425,7 +425,7 @@ func init() {
 
 	fw.Register(&fw.Property{
 		ID: "C08", Level: "exploration",
-		Rule: "random histories (3-15 requests) of start/stop/restart on 1-3 processes plus unknown names, sequential and in concurrent bursts of 2-4 identical or mixed requests, against behaviours fast exit / slow reaction to the stop signal (longer than the back-off) / restarting / pending on a dependency / disabled, with bounded holds at start.afterCheck, restart.afterStop, runner.afterRun, run.beforeLaunch, stop.afterCancel; oracles: instance overlap, per-request post-conditions, instance conservation; non-trivial = at least 2 requests on known processes returned; distinct = event-order signature",
+		Rule:        "random histories (3-15 requests) of start/stop/restart on 1-3 processes plus unknown names, sequential and in concurrent bursts of 2-4 identical or mixed requests, against behaviours fast exit / slow reaction to the stop signal (longer than the back-off) / restarting / pending on a dependency / disabled, with bounded holds at start.afterCheck, restart.afterStop, runner.afterRun, run.beforeLaunch, stop.afterCancel; oracles: instance overlap, per-request post-conditions, instance conservation; non-trivial = at least 2 requests on known processes returned; distinct = event-order signature",
 		Assumptions: []string{"per-request attribution of new instances is skipped while another start/restart of the same process overlaps the request"},
 		Gen: func(seed int64, tier string) []fw.Case {
 			var cs []fw.Case
@@ -450,7 +450,7 @@ func init() {
 
 	fw.Register(&fw.Property{
 		ID: "C09", Level: "exploration",
-		Rule: "every status write (state hook under the state mutex) of every process in a mix of all lifecycle workloads (random graphs with failures and API requests, restart grids with stops, shutdown injections, manual request histories, ordered shutdowns) is checked against the legal transition relation per instance, and against the command ground truth (terminal only when no command of the instance is alive, exit code equals the last command's, no transient status at the end); non-trivial = at least 3 status writes; distinct = event-order signature of instance/state events",
+		Rule:        "every status write (state hook under the state mutex) of every process in a mix of all lifecycle workloads (random graphs with failures and API requests, restart grids with stops, shutdown injections, manual request histories, ordered shutdowns) is checked against the legal transition relation per instance, and against the command ground truth (terminal only when no command of the instance is alive, exit code equals the last command's, no transient status at the end); non-trivial = at least 3 status writes; distinct = event-order signature of instance/state events",
 		Assumptions: []string{"transition table transcribed from the statement; transitions are tracked per Process instance"},
 		Gen: func(seed int64, tier string) []fw.Case {
 			var cs []fw.Case
@@ -496,7 +496,7 @@ func init() {
 
 	fw.Register(&fw.Property{
 		ID: "C12", Level: "exploration",
-		Rule: "ordered shutdown on chains, fan-in, fan-out, layered and random graphs of 3-8 long-running processes with per-process termination latencies 0-80 ms, some already exited when the shutdown arrives; oracle: no process is signalled while a direct dependent that was alive when the shutdown began has not exited; non-trivial = at least one (dependency, live dependent) pair was checked; distinct = event-order signature",
+		Rule:        "ordered shutdown on chains, fan-in, fan-out, layered and random graphs of 3-8 long-running processes with per-process termination latencies 0-80 ms, some already exited when the shutdown arrives; oracle: no process is signalled while a direct dependent that was alive when the shutdown began has not exited; non-trivial = at least one (dependency, live dependent) pair was checked; distinct = event-order signature",
 		Assumptions: []string{"'running when the shutdown began' = a command alive at the shutdown.enter event"},
 		Gen: func(seed int64, tier string) []fw.Case {
 			var cs []fw.Case
